@@ -37,14 +37,15 @@ def app(fn, *args):
     return '(' + ' '.join([fn] + [rlit(a) if not isinstance(a, str) else a for a in args]) + ')'
 
 
-def run_certs(name, requires, unfolds, goals, prec=80, chunk=60, timeout=900, extra_tac='', pre_tac=''):
+def run_certs(name, requires, unfolds, goals, prec=80, chunk=60, timeout=900, extra_tac='', pre_tac='', final_tac=None):
     """Compile the goals in parallel shards.  Returns (ok_indices, bad_indices, log_tail).
 
     Every goal in ok_indices was closed under Qed by coqc (kernel-checked)."""
     req = '\n'.join(requires)
     unf = ('unfold %s.' % ', '.join(unfolds)) if unfolds else ''
     # pre_tac runs on the whole goal before conjunctions are split (shared decisions are then resolved once), extra_tac on every conjunct
-    tac = '%s cbv beta iota zeta; %s repeat match goal with |- _ /\\ _ => split end; %s cert_prep; interval with (i_prec %d)' % (unf and unf[:-1] + ';', pre_tac, extra_tac, prec)
+    tac = '%s cbv beta iota zeta; %s repeat match goal with |- _ /\\ _ => split end; %s cert_prep; %s' % (
+        unf and unf[:-1] + ';', pre_tac, extra_tac, final_tac or ('interval with (i_prec %d)' % prec))
 
     def shard_text(idx, diag):
         out = HEADER % req
